@@ -538,6 +538,11 @@ class Run:
                 if basename in inputs and fn == entry:
                     if lhs not in vals and "binary" in v or ("data" in v and lhs not in vals):
                         vals.setdefault(lhs, v)
+                    elif v.get("name") == "array" and lhs == basename:      # whole-array value (declaration of a nondet array)
+                        for el in v.get("elements", []):
+                            ev = el.get("value", {})
+                            if "binary" in ev or "data" in ev:
+                                vals.setdefault("%s[%s]" % (lhs, el.get("index")), ev)
             if fn and not lhs.startswith("__") and not fn.startswith("__CPROVER") and "data" in v:
                 tail.append("%s:%s %s=%s" % (fn, s.get("sourceLocation", {}).get("line"), lhs, v.get("data")))
         for k, v in vals.items():
